@@ -23,9 +23,12 @@ import (
 	"os"
 	"strconv"
 	"strings"
+	"sync/atomic"
+	"time"
 
 	"github.com/hydraide/hydraide/app/core/settings"
 	"github.com/hydraide/hydraide/app/name"
+	"github.com/hydraide/hydraide/app/verifhook"
 	hydrapb "github.com/hydraide/hydraide/sdk/go/hydraidego/v3/hydraidepbgo"
 	"google.golang.org/grpc/metadata"
 	"google.golang.org/protobuf/types/known/timestamppb"
@@ -180,7 +183,9 @@ func c07Gen(rng *rand.Rand, tier string, w *bufio.Writer) {
 	fmt.Fprintln(w, "case 9\nset k1 i64 1 3000000000 0 0\nset k2 i64 2 3000000001 0 0\nset k3 i64 3 3999999999 0 0\nset k4 i64 4 4000000000 0 0\nset k5 i64 5 3000000000 0 0\nq created asc 0 0 3000000001 4000000000 u\nq created desc 0 0 3000000000 3999999999 u\nq created asc 0 0 3000000000 3000000001 s\nq created desc 0 0 3999999999 - u\nq created asc 0 0 - 3000000001 u")
 	// 10: Increment moves an int64 value and the expiry inside built indexes; a reload drops them
 	fmt.Fprintln(w, "case 10p\nset k1 i64 1 1000000000 0 0\nset k2 i64 2 2000000000 0 3000000000\nq i64 asc 0 0 - - u\nq expire asc 0 0 - - u\ninc k1 3 5000000000\ninc k3 1 0\nq i64 asc 0 0 - - u\nq expire desc 0 0 - - u\nreload\nq i64 desc 0 0 - - u\nq created asc 0 0 - - u\nset k1 i64 0 9000000000 0 0\nq created asc 0 0 - - u\nq expire asc 0 0 - - u\nshiftexp\nq key asc 0 0 - - u\nshiftexp")
-	for c := 11; c < cases; c++ {
+	// 11: two first readers of an index that is not built yet (forced schedule through the hook)
+	fmt.Fprintln(w, "case 11\nset k1 i64 1 1000000000 0 0\nset k2 i64 2 2000000000 0 0\nrace key asc\nrace created desc\nrace created asc\nrace updated asc")
+	for c := 12; c < cases; c++ {
 		persistent := c%3 == 0
 		if persistent {
 			fmt.Fprintf(w, "case %dp\n", c)
@@ -278,6 +283,9 @@ func c07Gen(rng *rand.Rand, tier string, w *bufio.Writer) {
 				fmt.Fprintf(w, "inc %s %d %d\n", k, d, c07TS(rng, 60))
 			case r < 62 && persistent:
 				fmt.Fprintln(w, "reload")
+			case r < 66 && r >= 64 && c%4 == 0:
+				idx := []string{"key", "created", "updated", "expire", fv}[rng.Intn(5)]
+				fmt.Fprintf(w, "race %s %s\n", idx, []string{"asc", "desc"}[rng.Intn(2)])
 			case r < 64:
 				// ShiftExpiredTreasures: every timestamp of the run is in the past, so this returns the
 				// whole expiration index in order and deletes those records
@@ -391,6 +399,65 @@ func c07Run(in *bufio.Scanner, w *bufio.Writer) {
 					return "nilnil"
 				}
 				return "ok" // a content type other than int64 is an error and changes nothing
+			case f[0] == "race" && len(f) == 3:
+				// two first readers of index IDX (full read, order ORD): the first is held at the hook in
+				// buildBeacon (flag raised, slice not filled); the second runs meanwhile
+				it, ok := c07IndexType(f[1])
+				if !ok || (f[2] != "asc" && f[2] != "desc") {
+					return "bad-op"
+				}
+				ord := hydrapb.OrderType_ASC
+				if f[2] == "desc" {
+					ord = hydrapb.OrderType_DESC
+				}
+				read := func() string {
+					resp, err := rig.GW.GetByIndex(ctx, &hydrapb.GetByIndexRequest{IslandID: 1, SwampName: swampName, IndexType: it, OrderType: ord})
+					if err != nil {
+						return "err " + c07ErrClass(err)
+					}
+					if resp == nil {
+						return "nilnil"
+					}
+					var keys []string
+					for _, t := range resp.GetTreasures() {
+						keys = append(keys, t.GetKey())
+					}
+					return strings.Join(keys, ",")
+				}
+				var armed int32 = 1
+				reached := make(chan struct{}, 1)
+				release := make(chan struct{})
+				verifhook.SetHandler(func(name string, args ...any) {
+					if name == "beacon.build" && atomic.CompareAndSwapInt32(&armed, 1, 0) {
+						reached <- struct{}{}
+						<-release
+					}
+				})
+				first := make(chan string, 1)
+				go func() { first <- read() }()
+				r1, r2 := "", ""
+				select {
+				case <-reached:
+					second := make(chan string, 1)
+					go func() { second <- read() }()
+					got := false
+					select {
+					case r2 = <-second: // answered while the first reader is still inside the build
+						got = true
+					case <-time.After(60 * time.Millisecond): // it waits for the build: let the first go on
+					}
+					close(release)
+					r1 = <-first
+					if !got {
+						r2 = <-second
+					}
+				case r1 = <-first: // the index was built already: no window
+					atomic.StoreInt32(&armed, 0)
+					close(release)
+					r2 = read()
+				}
+				verifhook.SetHandler(nil)
+				return "r2=" + r2 + " r1=" + r1
 			case f[0] == "shiftexp" && len(f) == 1:
 				resp, err := rig.GW.ShiftExpiredTreasures(ctx, &hydrapb.ShiftExpiredTreasuresRequest{IslandID: 1, SwampName: swampName, HowMany: 0})
 				if err != nil {
